@@ -43,7 +43,9 @@ def exec_RD(t):
         x = mkarr(codes, r, c, s, n, f, overflow=o)
         before = codes_of(x)
         kw = {}
-        if axis != 'n' and fn not in ('transpose', 'diagonal', 'trace'):
+        if axis == 'N' and fn not in ('transpose', 'diagonal', 'trace'):
+            kw['axis'] = None             # passed explicitly (for sort this is not the default)
+        elif axis != 'n' and fn not in ('transpose', 'diagonal', 'trace'):
             kw['axis'] = int(axis)
         if route == 'numpy':
             z = NPF[fn](x, **kw)
@@ -152,10 +154,12 @@ def generate(tier, rng):
             continue
         if fn in ('prod', 'cumprod') and size * n > 53:
             continue
-        axis = rng.choice(['n', '0', '-1'] + (['1', '-2'] if two else []))
+        axis = rng.choice(['n', 'N', '0', '-1'] + (['1', '-2'] if two else []))
         if fn in ('transpose', 'diagonal', 'trace'):
             axis = 'n'
         route = rng.choice(['numpy', 'method'])
+        if axis == 'N' and fn == 'sort':
+            route = 'numpy'               # the in-place method cannot flatten
         yield 'RD %s %s %s %d %d %s %s %s' % (fn, route, axis, r, c, fm(s, n, f), rng.choice(OVFS), L(elems(rng, lo, hi, size)))
     for _ in range(n_c // 3):
         sx, sy = rng.random() < 0.5, rng.random() < 0.5
